@@ -207,7 +207,8 @@ theorem normState_eq (cfg : Cfg) (hz : ZeroFixed (realMaps cfg.P)) (s : State) :
     intro a _
     exact pick_mapR _ _ a
 
-/-- an initial state: exactly the attributes of the first class (`InitialState`), unset ones with their default -/
+/-- an initial state: exactly the attributes of the first class (`InitialState`), unset ones with their default; every OTHER
+    attribute the state carries is dropped (the reader only fills an `InitialState`; `C01_initial_extra_dropped`) -/
 def State.canonInitial (cfg : Cfg) (s : State) : State :=
   match cfg.classes with
   | [] => s
